@@ -1,5 +1,7 @@
+import QuicModel.Drivers.AckRanges
+import QuicModel.Drivers.IntervalSet
 import QuicModel.Drivers.VarInt
 namespace Quic.Drivers
 def all : List Component :=
-  VarInt.components
+  AckRanges.components ++ IntervalSet.components ++ VarInt.components
 end Quic.Drivers
